@@ -61,6 +61,8 @@ type SessionSpec struct {
 	// reading peer uses a small receive buffer and starts reading PeerDelayMs late
 	Bulk        int `json:"bulk,omitempty"`
 	PeerDelayMs int `json:"peer_delay_ms,omitempty"`
+	// CloseErr: the connection's Close() closes it but returns an error (net.Pipe transport only)
+	CloseErr bool `json:"close_err,omitempty"`
 }
 
 type CaseSess struct {
@@ -95,6 +97,7 @@ func GenSess(t *rapid.T) CaseSess {
 		s.Events = rapid.SampledFrom([][]string{{"local-close"}, {"local-close"}, {"peer-close"}, {"local-close", "peer-close"}, {"peer-close", "local-close"}, {"local-close", "local-close"}, {}}).Draw(t, "events")
 		s.Concurrent = rapid.Bool().Draw(t, "concurrent")
 		s.OwnHandler = rapid.IntRange(0, 3).Draw(t, "ownhandler") == 0
+		s.CloseErr = rapid.IntRange(0, 4).Draw(t, "closeerr") == 0
 		if rapid.IntRange(0, 5).Draw(t, "bulk") == 0 {
 			s.Bulk = rapid.SampledFrom([]int{16, 64}).Draw(t, "nbulk")
 			s.PeerDelayMs = rapid.SampledFrom([]int{0, 20, 60}).Draw(t, "peerdelay")
@@ -110,12 +113,17 @@ func GenSess(t *rapid.T) CaseSess {
 // countingConn wraps the connection handed to the session.
 type countingConn struct {
 	net.Conn
-	closes atomic.Int32
+	closes  atomic.Int32
+	failing bool // Close closes the connection but reports an error (as a TLS connection does after a peer reset)
 }
 
 func (c *countingConn) Close() error {
 	c.closes.Add(1)
-	return c.Conn.Close()
+	err := c.Conn.Close()
+	if c.failing {
+		return errors.New("close: broken pipe (injected)")
+	}
+	return err
 }
 
 type handler struct {
@@ -345,7 +353,10 @@ func ExecSess(c CaseSess) *vkit.Result {
 		if err != nil {
 			vkit.Infra("cannot create a %s connection pair: %v", c.Transport, err)
 		}
-		r := &sessRun{spec: spec, idx: i, conn: &countingConn{Conn: srv}, peer: cli, exited: make(chan struct{}), peerDone: make(chan struct{}),
+		if spec.CloseErr && c.Transport != "tcp" {
+			res.Class("close-returns-error")
+		}
+		r := &sessRun{spec: spec, idx: i, conn: &countingConn{Conn: srv, failing: spec.CloseErr}, peer: cli, exited: make(chan struct{}), peerDone: make(chan struct{}),
 			ownErr: fmt.Errorf("handler error of session %d", i)}
 		if c.Transport == "tcp" {
 			// the session gets the real *net.TCPConn (code that type-asserts the connection must see it);
